@@ -318,15 +318,22 @@ class Ctx:
             if want and os.path.exists(obj) and os.path.exists(key) and open(key).read() == want:
                 continue
             rebuilt = True
+            if os.path.exists(key):
+                os.unlink(key)
+            t0 = time.time()
             p = subprocess.Popen(["g++", *allflags, "-MD", "-MF", dep, "-c", s, "-o", obj],
                                  stdout=subprocess.PIPE, stderr=subprocess.STDOUT, text=True)
-            procs.append((p, s, obj, dep, key))
-        for p, s, obj, dep, key in procs:
+            procs.append((p, s, obj, dep, key, t0))
+        for p, s, obj, dep, key, t0 in procs:
             out, _ = p.communicate()
             if p.returncode != 0:
                 self.log(f"harness compile failed for {s}:\n{out[-4000:]}")
                 self.broken("harness-build", name, out[-3000:])
                 return None
+            # a dependency edited while the compiler ran would make a stale object look fresh
+            if self._deps_newer_than(s, dep, t0):
+                self.log(f"harness: {s} or a dependency changed during the compile; not cached")
+                continue
             with open(key, "w") as f:
                 f.write(self._depkey(s, dep, allflags))
         if rebuilt or not os.path.exists(exe):
@@ -337,6 +344,20 @@ class Ctx:
                 return None
         self.cov.setdefault("harness_rebuilt", {})[name] = rebuilt
         return exe
+
+    def _deps_newer_than(self, src, depfile, t0):
+        files = [src]
+        if os.path.exists(depfile):
+            txt = open(depfile).read().replace("\\\n", " ")
+            txt = txt.split(":", 1)[1] if ":" in txt else ""
+            files += [f for f in txt.split() if not f.startswith("/usr/")]
+        for f in files:
+            try:
+                if os.path.getmtime(f) > t0:
+                    return True
+            except OSError:
+                return True
+        return False
 
     def _depkey(self, src, depfile, flags):
         files = [src]
